@@ -156,6 +156,10 @@ def run(ctx):
     ctx.counted('roots that are not directories', nbad, nbad, [{'pattern': './', 'root_dir': '<missing>'}])
     from props import fringe
     fringe.deep_tree_roots(ctx)
+    from props import glue
+    glue.bytes_dirfd_hidden(ctx)
+    glue.list_is_union(ctx)
+    glue.root_through_link(ctx)
     return ctx.finish(RULE)
 
 
